@@ -18,6 +18,8 @@ inductive Sys where
   | kill (pid sig : Nat)
   | waitpid (pid : Nat) (ok : Bool)
   | exit (status : Int)
+  | read (fd : Int) (len : Nat)
+  | write (fd : Int) (len : Nat)
   deriving DecidableEq, Repr
 
 structure K where
@@ -36,6 +38,21 @@ def K.waitpid (k : K) (pid : Nat) : Option Nat × K :=
 
 /-- `_exit(status)`: the process ends (what follows in the function is never executed) -/
 def K.exit (k : K) (status : Int) : K := { k with trace := k.trace ++ [.exit status] }
+
+/-- what the kernel answers to an I/O call: the next oracle entry (`some n` = n bytes, `none` / exhausted = -1) -/
+def K.answer (k : K) : Int × List (Option Nat) :=
+  match k.oracle with
+  | [] => (-1, [])
+  | none :: r => (-1, r)
+  | some n :: r => (n, r)
+
+/-- `::read(fd, buffer, len)` -/
+def K.sysRead (k : K) (fd : Int) (len : Nat) : Int × K :=
+  (k.answer.1, { trace := k.trace ++ [.read fd len], oracle := k.answer.2 })
+
+/-- `::write(fd, buffer, len)` -/
+def K.sysWrite (k : K) (fd : Int) (len : Nat) : Int × K :=
+  (k.answer.1, { trace := k.trace ++ [.write fd len], oracle := k.answer.2 })
 
 /-- `(int)x` for a `uint32` value -/
 def toInt32 (x : Nat) : Int := if x % 4294967296 < 2147483648 then (x % 4294967296 : Nat) else (x % 4294967296 : Nat) - 4294967296
